@@ -740,3 +740,144 @@ Proof.
   - intros Hw. assert (E : norm_work w = Some w) by (unfold norm_work; rewrite Hw; reflexivity).
     rewrite E. cbn [norm_work_opt]. rewrite E. split; reflexivity.
 Qed.
+
+(* ---- statements in their final form ------------------------------------------------------- *)
+(* the bytes w, followed by anything, are read back as a by the packet reader AND by the stream
+   reader over every split of the bytes into non-empty short reads; both leave exactly the rest *)
+Definition reads_back {A} (flat : rdr (list Z) A) (stream : rdr src A) (w : list Z) (a : A) : Prop :=
+  (forall rest, flat (w ++ rest) = Ok (a, rest)) /\
+  (forall sr rest, no_empty sr -> concat sr = w ++ rest ->
+     exists sr', stream sr = Ok (a, sr') /\ concat sr' = rest /\ no_empty sr').
+
+Lemma reads_back_intro {A} (f : rdr (list Z) A) (g : rdr src A) w a : agree f g -> rt f w a -> reads_back f g w a.
+Proof. intros Hag Hrt. split; [exact Hrt | apply rt_stream with (f := f); assumption]. Qed.
+
+Theorem address_roundtrip a : wf_addr a = true -> reads_back (read_addr flat_ops) (read_addr stream_ops) (write_addr a) a.
+Proof. intros H. apply reads_back_intro; [apply agree_addr | apply rt_addr; exact H]. Qed.
+Theorem netdev_roundtrip d : wf_dev d = true -> reads_back (read_dev flat_ops) (read_dev stream_ops) (write_dev d) d.
+Proof. intros H. apply reads_back_intro; [apply agree_dev | apply rt_dev; exact H]. Qed.
+Theorem network_roundtrip n : len n <= 255 -> forallb wf_dev n = true ->
+  reads_back (read_counted flat_ops (read_dev flat_ops)) (read_counted stream_ops (read_dev stream_ops)) (write_net n) n.
+Proof. intros Hl H. apply reads_back_intro; [apply agree_counted; apply agree_dev | apply rt_net; assumption]. Qed.
+Theorem machine_roundtrip m : wf_machine m = true -> reads_back (read_machine flat_ops) (read_machine stream_ops) (write_machine m) m.
+Proof. intros H. apply reads_back_intro; [apply agree_machine | apply rt_machine; exact H]. Qed.
+Theorem workhours_roundtrip w : wf_workhours w = true ->
+  reads_back (read_workhours flat_ops) (read_workhours stream_ops) (write_workhours w) w.
+Proof. intros H. apply reads_back_intro; [apply agree_workhours | apply rt_workhours; exact H]. Qed.
+Theorem keypair_roundtrip k : wf_keys k = true -> reads_back (read_keys flat_ops) (read_keys stream_ops) (write_keys k) k.
+Proof. intros H. apply reads_back_intro; [apply agree_keys | apply rt_keys; exact H]. Qed.
+
+Theorem devinfo_roundtrip k s r : wf k s = true ->
+  reads_back (read_info flat_ops k r) (read_info stream_ops k r) (write_info k s) (absorb k s r, carried_proxies k s).
+Proof. intros H. apply reads_back_intro; [apply read_info_agree | apply devinfo_roundtrip_flat; exact H]. Qed.
+
+(* the six kinds with their hypotheses and results spelled out *)
+Lemma wf_intro_and a b : a = true -> b = true -> a && b = true.
+Proof. intros -> ->. reflexivity. Qed.
+
+Theorem devinfo_roundtrip_hello s r :
+  wf_machine (s_dev s) = true -> wf_settings s = true -> s_client s = true -> wf_proxy_opt (s_proxy s) = true ->
+  reads_back (read_info flat_ops infoHello r) (read_info stream_ops infoHello r) (write_info infoHello s)
+             (absorb_settings s (set_dev r (s_dev s)), proxies_of true s).
+Proof.
+  intros Hm Hs Hc Hp. apply (devinfo_roundtrip infoHello s r). unfold wf.
+  change (is_kind infoHello) with true. change (infoHello =? infoProxy) with false. change (has_device infoHello) with true.
+  change (carries_proxy infoHello) with true. change (infoHello =? infoMigrate) with false.
+  rewrite Hm, Hs, Hc, Hp. reflexivity.
+Qed.
+Theorem devinfo_roundtrip_refresh s r :
+  wf_machine (s_dev s) = true -> wf_settings s = true -> s_client s = true -> wf_proxy_opt (s_proxy s) = true ->
+  reads_back (read_info flat_ops infoRefresh r) (read_info stream_ops infoRefresh r) (write_info infoRefresh s)
+             (absorb_settings s (set_dev r (s_dev s)), proxies_of true s).
+Proof.
+  intros Hm Hs Hc Hp. apply (devinfo_roundtrip infoRefresh s r). unfold wf.
+  change (is_kind infoRefresh) with true. change (infoRefresh =? infoProxy) with false. change (has_device infoRefresh) with true.
+  change (carries_proxy infoRefresh) with true. change (infoRefresh =? infoMigrate) with false.
+  rewrite Hm, Hs, Hc, Hp. reflexivity.
+Qed.
+Theorem devinfo_roundtrip_syncmigrate s r :
+  wf_machine (s_dev s) = true -> wf_settings s = true ->
+  reads_back (read_info flat_ops infoSyncMigrate r) (read_info stream_ops infoSyncMigrate r) (write_info infoSyncMigrate s)
+             (absorb_settings s (set_dev r (s_dev s)), []).
+Proof.
+  intros Hm Hs. apply (devinfo_roundtrip infoSyncMigrate s r). unfold wf.
+  change (is_kind infoSyncMigrate) with true. change (infoSyncMigrate =? infoProxy) with false.
+  change (has_device infoSyncMigrate) with true. change (carries_proxy infoSyncMigrate) with false.
+  change (infoSyncMigrate =? infoMigrate) with false. rewrite Hm, Hs. reflexivity.
+Qed.
+Theorem devinfo_roundtrip_sync s r :
+  wf_settings s = true ->
+  reads_back (read_info flat_ops infoSync r) (read_info stream_ops infoSync r) (write_info infoSync s) (absorb_settings s r, []).
+Proof. intros Hs. apply (devinfo_roundtrip infoSync s r). apply wf_sync. exact Hs. Qed.
+Theorem devinfo_roundtrip_proxy s r :
+  s_client s = true -> wf_proxy_opt (s_proxy s) = true ->
+  reads_back (read_info flat_ops infoProxy r) (read_info stream_ops infoProxy r) (write_info infoProxy s) (r, proxies_of false s).
+Proof.
+  intros Hc Hp. apply (devinfo_roundtrip infoProxy s r). unfold wf.
+  change (is_kind infoProxy) with true. change (infoProxy =? infoProxy) with true. rewrite Hc, Hp. reflexivity.
+Qed.
+Theorem devinfo_roundtrip_migrate s r :
+  wf_id (s_id s) = true -> wf_settings s = true -> s_client s = true -> wf_proxy_opt (s_proxy s) = true -> wf_keys (s_keys s) = true ->
+  reads_back (read_info flat_ops infoMigrate r) (read_info stream_ops infoMigrate r) (write_info infoMigrate s)
+             (set_keys (absorb_settings s (set_id r (s_id s))) (s_keys s), proxies_of true s).
+Proof.
+  intros Hi Hs Hc Hp Hk. apply (devinfo_roundtrip infoMigrate s r). unfold wf.
+  change (is_kind infoMigrate) with true. change (infoMigrate =? infoProxy) with false. change (has_device infoMigrate) with false.
+  change (carries_proxy infoMigrate) with true. change (infoMigrate =? infoMigrate) with true.
+  rewrite Hi, Hs, Hc, Hp, Hk. reflexivity.
+Qed.
+
+(* the settings part of what every kind but the proxy update delivers *)
+Theorem absorb_settings_fields s r :
+  let r' := absorb_settings s r in
+  s_jitter r' = s_jitter s /\ s_sleep r' = s_sleep s /\
+  s_kill r' = norm_kill (s_kill s) /\ s_work r' = norm_work_opt (s_work s) /\
+  s_id r' = s_id r /\ s_dev r' = s_dev r /\ s_keys r' = s_keys r.
+Proof. cbv zeta. repeat split. Qed.
+
+(* ---- the repaired defect, kept as a theorem about the OLD reader -----------------------------
+   KeyPair.Unmarshal used ONE Read call per key array: a stream that delivers the 264 key bytes in
+   two reads (1 + 263) is refused although the bytes are a well-formed key triple. *)
+Definition old_keys_witness : keys := mkKeys (gen_bytes 133 1 1) (gen_bytes 66 2 1) (gen_bytes 65 3 1).
+Lemma keys_single_read_refuted :
+  exists k sr, wf_keys k = true /\ no_empty sr /\ concat sr = write_keys k /\
+               read_keys_old sr = Err ErrUnexpectedEOF /\ read_keys stream_ops sr = Ok (k, []).
+Proof.
+  exists old_keys_witness, [take 1 (write_keys old_keys_witness); drop 1 (write_keys old_keys_witness)].
+  split; [vm_compute; reflexivity|]. split; [repeat constructor; discriminate|].
+  split; [vm_compute; reflexivity|]. split; vm_compute; reflexivity.
+Qed.
+
+(* ---- non-vacuity: a concrete non-trivial session satisfies every hypothesis ------------------ *)
+Definition ex_session : session :=
+  mkSession (gen_bytes 32 7 3)
+    (mkMachine (gen_bytes 32 9 5) 33 4242 1 [114;111;111;116] [76;105;110;117;120] (gen_bytes 300 65 1) 1 4097
+       [mkDev [101;116;104;48] 2485377892354 [mkAddr 0 281473913978881; mkAddr 18338657682652659712 1]; mkDev [108;111] 0 []])
+    37 60000000000 (mkTime 1790380800 0) (Some (mkWork 62 9 0 17 30))
+    (mkKeys (gen_bytes 133 4 1) (gen_bytes 66 1 2) (gen_bytes 65 3 3)) true
+    (Some (mkProxy [112;120] [49;50;55;46;48;46;48;46;49;58;56;48] [160;0;1;120] true)).
+Definition ex_receiver : session :=
+  mkSession (gen_bytes 32 1 0) (mkMachine (gen_bytes 32 1 0) 0 0 0 [] [] [] 0 0 []) 0 1 zero_time None
+    (mkKeys (gen_bytes 133 0 0) (gen_bytes 66 0 0) (gen_bytes 65 0 0)) false None.
+Lemma ex_session_wf :
+  forallb (fun k => wf k ex_session) [0;1;2;3;4;5] = true /\ exact_settings ex_session = true /\
+  wf_settings ex_receiver = true /\
+  settings_eqb ex_session ex_receiver = false /\
+  forallb (fun k => robs_eqb (robs_of len (read_info flat_ops k ex_receiver (write_info k ex_session ++ [238;0;1])))
+                             (Ok (absorb k ex_session ex_receiver, carried_proxies k ex_session, 3))) [0;1;2;3;4;5] = true /\
+  forallb (fun k => robs_eqb (robs_of src_len (read_info stream_ops k ex_receiver (split_bytes (SEach 1) (write_info k ex_session ++ [238;0;1]))))
+                             (Ok (absorb k ex_session ex_receiver, carried_proxies k ex_session, 3))) [0;1;2;3;4;5] = true.
+Proof. vm_compute. repeat split; reflexivity. Qed.
+Lemma ex_order :
+  wf_order (OSetDuration 30000000000 50) = true /\
+  (exists pkt cli1 srv2, exchange ex_receiver ex_session (OSetDuration 30000000000 50) = Ok (pkt, cli1, srv2) /\
+     s_jitter cli1 = 50 /\ s_sleep cli1 = 30000000000 /\ settings_eqb srv2 cli1 = true /\ settings_eqb cli1 ex_session = false) /\
+  (exists pkt cli1 srv2, exchange ex_receiver ex_session (OSetWork (Some (mkWork 0 8 0 0 0))) = Ok (pkt, cli1, srv2) /\
+     s_work cli1 = Some (mkWork 0 8 0 0 0) /\ settings_eqb srv2 cli1 = true) /\
+  exchange ex_receiver ex_session (OSetWork (Some (mkWork 1 24 0 0 0))) = Err ErrVerify.
+Proof.
+  split; [reflexivity|]. split; [|split].
+  - eexists _, _, _. split; [vm_compute; reflexivity|]. vm_compute. repeat split; reflexivity.
+  - eexists _, _, _. split; [vm_compute; reflexivity|]. vm_compute. repeat split; reflexivity.
+  - vm_compute. reflexivity.
+Qed.
